@@ -11,6 +11,10 @@ package netty
 //@ property C03
 //@ ghost node(ref, int) *handlerContext
 //@ ghost pos(*handlerContext) int
+// asyncWritev: offset in the merged packet at which the k-th input slice starts
+//@ ghost poff(int) int local
+// asyncWritev: the input slice the i-th byte of the merged packet was copied from
+//@ ghost pseg(int) int local
 //@ spec func plOf(hc *handlerContext) *pipeline = as(hc.pipeline, *pipeline)
 //@ spec func inlist(p *pipeline, c *handlerContext) bool = c != nil && 0 <= pos(c) && pos(c) < p.size && node(p, pos(c)) == c
 //@ spec func WFnodes(p *pipeline) bool = forall(i, 0, p.size, node(p, i) != nil && pos(node(p, i)) == i && is(node(p, i).pipeline, *pipeline) && as(node(p, i).pipeline, *pipeline) == p)
@@ -549,14 +553,24 @@ package netty
 //@   inline
 //@   requires asyncInv(c) && ctx != nil
 //@   modifies ghost pooltyp, ghost chclosed, elems(uint8), cell([]byte), channel.running
-//@   loop 0 modifies elems(uint8)
+//@   loop 0 modifies elems(uint8), ghost poff, ghost pseg
 //@   loop 0 invariant 0 <= offset && offset <= cap(dataBuff) && fresh(dataBuff) && -1 <= rangeindex && rangeindex < len(p)
 //@   loop 0 decreases len(p) - rangeindex
+//@   after copy ghostset poff(k) = ite(k == rangeindex+1, offset, poff(k))
+//@   loop 0 owninvariant segments_are_adjacent: forall(j, 0, rangeindex, poff(j) + len(p[j]) == poff(j+1)) && implies(rangeindex >= 0, poff(0) == 0 && poff(rangeindex) + len(p[rangeindex]) == offset) && implies(rangeindex < 0, offset == 0)
+//@   loop 0 owninvariant segments_in_range: forall(j, 0, rangeindex+1, 0 <= poff(j) && poff(j) + len(p[j]) <= offset)
+//@   loop 0 owninvariant distinct: forall(j, 0, len(p), arrof(p[j]) != arrof(dataBuff))
+//@   after copy ghostset pseg(i) = ite(offset <= i && i < offset + len(p[rangeindex+1]), rangeindex+1, pseg(i))
+//@   loop 0 owninvariant inputs_kept: forall(j, 0, len(p), samearray(content(p[j]), old(content(p[j]))))
+//@   loop 0 owninvariant byte_segments: forall(i, 0, offset, 0 <= pseg(i) && pseg(i) <= rangeindex && poff(pseg(i)) <= i && i < poff(pseg(i)) + len(p[pseg(i)]), pseg(i))
+//@   loop 0 owninvariant bytes_copied: forall(i, 0, offset, content(dataBuff)[i] == content(p[pseg(i)])[i - poff(pseg(i))], pseg(i))
 //@   ensures at_most_one_enqueue: count("send c.writeQueue") <= 1
 //@   ensures enqueued_means_accepted: implies(count("send c.writeQueue") == 1, result1 == nil)
 //@   ensures error_means_not_enqueued: implies(result1 != nil, count("send c.writeQueue") == 0 && result0 == 0)
 //@   ensures success_means_enqueued: implies(result1 == nil && count("recv c.ctx.Done()") == 0, count("send c.writeQueue") == 1)
 //@   ensures one_fresh_packet: implies(count("send c.writeQueue") == 1, evis(0, "pbytes.Get") && evis(2, "send c.writeQueue") && at(2, arrof(evarg(2, 0)) == arrof(*evres(0, 0)) && fresh(evarg(2, 0))))
+//@   ensures merged_packet_is_the_concatenation: implies(count("send c.writeQueue") == 1, at(2, len(evarg(2, 0)) == ite(len(p) == 0, 0, poff(len(p)-1) + len(p[len(p)-1])) && implies(len(p) > 0, poff(0) == 0) && forall(j, 0, len(p)-1, poff(j+1) == poff(j) + len(p[j])) && forall(i, 0, len(evarg(2, 0)), 0 <= pseg(i) && pseg(i) < len(p) && poff(pseg(i)) <= i && i < poff(pseg(i)) + len(p[pseg(i)]) && content(evarg(2, 0))[i] == content(p[pseg(i)])[i - poff(pseg(i))])))
+//@   ensures inputs_untouched_until_enqueued: implies(count("send c.writeQueue") == 1, at(2, forall(j, 0, len(p), samearray(content(p[j]), old(content(p[j]))))))
 //@   ensures kick: implies(count("send c.writeQueue") == 1, count("cas c.running") == 1 && evis(3, "cas c.running") && evarg(3, 0) == 0 && evarg(3, 1) == 1 && (count("Executor.Exec") == 1) == evres(3, 0))
 //@   ensures kick_starts_sender: implies(count("Executor.Exec") == 1, evis(nemitted()-1, "Executor.Exec") && evrecv(nemitted()-1) == old(c.executor) && isbound(evarg(nemitted()-1, 0), "writeOnce", c))
 //@   ensures no_kick_without_enqueue: implies(count("send c.writeQueue") == 0, count("cas c.running") == 0 && count("Executor.Exec") == 0)
